@@ -145,6 +145,10 @@ def lockOrderOk (rank : List (Nat × String × Nat)) (edges : List (Nat × Nat))
     | some a, some b => a.2.2 < b.2.2
     | _, _ => false
 
+/-- no function returns (or jumps out) between `Lock` and `Unlock` with the mutex still held -/
+def noLeak (loose : List (String × String × String × String × String)) : Bool :=
+  loose.all fun l => l.2.2.1 != "leak"
+
 def tempExcl (t : TempFileFacts) : Bool :=
   t.oExcl != 0 && t.oCreate != 0 &&
   t.flags &&& t.oExcl == t.oExcl && t.flags &&& t.oCreate == t.oCreate && t.retriesOnExist
